@@ -304,6 +304,43 @@ def prop_reuse(case, ctx):
     ctx.nontrivial(case["a"] != case["b"])
 
 
+def _kp_value_estimate_rose(case, msg=None):
+    """Known finding KF-C04-inconsistent-heuristic: true iff, in this very run (same problem, heuristic, seed, options), some
+    state's value estimate was *higher* at the end of a trial than at the end of an earlier one - which only an admissible but
+    inconsistent heuristic makes possible. Recomputed from the case; a run that exceeds the step budget does not match."""
+    try:
+        from msdm.algorithms.lrtdp import LRTDP, LRTDPEventListener
+        if "mdp" not in case or "heuristic" not in case:
+            return False
+        spec = case["mdp"]
+        mdp, view = build_mdp(spec)
+        ref = RefMDP(spec)
+        opt = ref.optimal()
+        h, _ = make_heuristic(dict(case["heuristic"], _q=opt["Q"]), ref, opt["V"], view)
+        seen, rose, steps = {}, [False], [0]
+
+        class L(LRTDPEventListener):
+            def end_of_lrtdp_timestep(self, lv):
+                steps[0] += 1
+                if steps[0] > 200000:
+                    raise Inconclusive("step budget")
+
+            def end_of_lrtdp_trial(self, lv):
+                for s_, v in lv["self"].res.V.items():
+                    v = float(v)
+                    if s_ in seen and v > seen[s_] + 1e-12 * (1 + abs(v)):
+                        rose[0] = True
+                    seen[s_] = v
+        LRTDP(heuristic=h, bellman_error_margin=case["margin"], seed=case["seed"],
+              randomize_action_order=case["randomize_action_order"], event_listener_class=L).plan_on(mdp)
+        return rose[0]
+    except BaseException:
+        return False
+
+
+KNOWN_PREDICATES = {"value_estimate_rose_during_run": _kp_value_estimate_rose}
+
+
 PROPS = [Prop("reuse", lambda tier: reuse_cases(tier), prop_reuse, quick=400, thorough=24000,
               doc="an LRTDP object reused on a second MDP gives the same result as a fresh one"),
          Prop("lrtdp", lambda tier: cases(tier), prop_lrtdp, quick=5000, thorough=300000,
